@@ -22,6 +22,8 @@ specifications — are run here against the library, with the constants of the B
                                                recursion above MUL_BLOCKSIZE)
   mzd_trtri_upper                            TRSMRec.trtri_upper_rec_f cfg (2*L3, SSE2 split)       U after the call, fate
   mzd_inv_m4ri                               the code's own route: M4RI model on [A|0|I|0]          inverse
+  _mzd_ple_russian / _mzd_pluq_russian       PLERussian.ple_russian k (lazy pivot search on the      A', P, Q, rank
+                                               column window, 1..7 tables with M/E/B; k as in C)
 
 The build's constants (__M4RI_MUL_BLOCKSIZE, __M4RI_STRASSEN_MUL_CUTOFF, __M4RI_PLE_CUTOFF, cache sizes, SSE2,
 OpenMP) are read from the harness compiled against the build (`consts`), written into every script as a
@@ -45,7 +47,8 @@ from corr import Case
 TB_OPS = {"mul_naive", "addmul_naive", "mul_m4rm", "addmul_m4rm", "mul", "addmul", "_addmul", "mul_mp", "addmul_mp", "djb",
           "echelonize_m4ri", "_echelonize_m4ri", "echelonize", "echelonize_pluq", "top_echelonize_m4ri",
           "trsm_upper_left", "trsm_lower_left", "trsm_upper_right", "trsm_lower_right",
-          "_trsm_upper_left", "_trsm_lower_left", "_trsm_upper_right", "_trsm_lower_right", "trtri_upper", "inv_m4ri"}
+          "_trsm_upper_left", "_trsm_lower_left", "_trsm_upper_right", "_trsm_lower_right", "trtri_upper", "inv_m4ri",
+          "_ple_russian", "_pluq_russian"}
 
 _consts_cache = {}
 
@@ -408,7 +411,19 @@ def c05(res, tier, seed):
             tb.run("inv", catalogue_cases(g, ["inv_m4ri", "trtri_upper"], 5 * k, 200, tb.cline), ["inv_m4ri", "trtri_upper"], 300)
 
 
-RUN = {"C01": c01, "C02": c02, "C04": c04, "C05": c05}
+def c03(res, tier, seed):
+    quick = tier == "quick"
+    names = ["_ple_russian", "_pluq_russian"]
+    for vn in ("host", "small"):
+        tb = TierB(res, "C03", VARIANTS[vn](vlib), seed)
+        g = gen.G(seed + 7300 + (vn == "host"))
+        k = 1 if quick else 8
+        # the automatic k depends on the L2 size of the build (ple_russian.c:393); explicit k 2..8 from the catalogue
+        tb.run("ple-russian", catalogue_cases(g, names, (60 if vn == "host" else 40) * k, 140, tb.cline), names, 200)
+        tb.run("ple-russian-wide", catalogue_cases(g, names, 12 * k, 330, tb.cline), names, 330)
+
+
+RUN = {"C01": c01, "C02": c02, "C03": c03, "C04": c04, "C05": c05}
 
 
 def run(res, prop, tier, seed):
